@@ -35,6 +35,12 @@ def failed_tests(out):
     return sorted({l.split()[2] for l in out.splitlines() if l.startswith("--- FAIL:")})
 
 
+def demo_pattern(demo):
+    import re
+    names = re.findall(r"^func (Test\w+)\(", open(demo).read(), flags=re.M)
+    return "^(" + "|".join(names) + ")$"
+
+
 def confirm(mut):
     meta = json.load(open(os.path.join(mut, "meta.json")))
     patch = os.path.abspath(os.path.join(mut, "patch.diff"))
@@ -49,7 +55,7 @@ def confirm(mut):
         res["suite_passes_with_patch"] = not ft and "build failed" not in out and "cannot" not in out.split("FAIL")[0][-200:]
         if os.path.exists(demo):
             shutil.copy(demo, os.path.join(d, pkg, "zz_demo_test.go"))
-            rc, out = sh("go test -vet=off -count=1 -timeout 120s -run 'Demo|Mut|Seed' ./%s/ 2>&1 | tail -30" % pkg, d)
+            rc, out = sh("go test -vet=off -count=1 -timeout 300s -run '%s' ./%s/ 2>&1 | tail -30" % (demo_pattern(demo), pkg), d)
             res["demo_fails_with_patch"] = rc != 0 or "FAIL" in out
             res["demo_out_with"] = out[-600:]
     finally:
@@ -58,12 +64,13 @@ def confirm(mut):
         d = scratch(None)
         try:
             shutil.copy(demo, os.path.join(d, pkg, "zz_demo_test.go"))
-            rc, out = sh("go test -vet=off -count=1 -timeout 120s -run 'Demo|Mut|Seed' ./%s/ 2>&1 | tail -30" % pkg, d)
+            rc, out = sh("go test -vet=off -count=1 -timeout 300s -run '%s' ./%s/ 2>&1 | tail -30" % (demo_pattern(demo), pkg), d)
             res["demo_passes_without_patch"] = rc == 0 and "ok" in out and "no tests to run" not in out
             res["demo_out_without"] = out[-300:]
         finally:
             shutil.rmtree(d)
     print(json.dumps(res, indent=1))
+    json.dump(res, open(os.path.join(mut, "confirm.json"), "w"), indent=1)
     return res
 
 
@@ -81,6 +88,7 @@ def check(mut, pids):
             print(pid, "rc=%d" % p.returncode, "; ".join(lines[:3])[:400])
     finally:
         shutil.rmtree(d)
+    json.dump(out_all, open(os.path.join(mut, "check_%s.json" % "_".join(pids)), "w"), indent=1)
     return out_all
 
 
